@@ -218,7 +218,7 @@ func setup(sp *spec, srv *drive.Srv) (*state, error) {
 	r := rand.New(rand.NewSource(sp.Seed*7919 + 17))
 	for k := 0; k < 4; k++ {
 		var s *storeSt
-		for try := 0; try < 30 && s == nil; try++ {
+		for try := 0; try < 300 && s == nil; try++ {
 			gc := gen.NewCase(r, fmt.Sprintf("C19-b%d-s%d", sp.Batch, k), gen.Options{})
 			if len(gc.Tuples) == 0 {
 				continue
@@ -242,7 +242,7 @@ func setup(sp *spec, srv *drive.Srv) (*state, error) {
 			s.index()
 		}
 		if s == nil {
-			return nil, errors.New("no acceptable generated case in 30 tries")
+			return nil, errors.New("no acceptable generated case in 300 tries")
 		}
 		if k >= 2 {
 			s.Kind = "poisoned"
